@@ -54,6 +54,27 @@ CHECKS = {
               "initial capacities >= 1 (symbolic), plus return value 0, loop unwinding assertion and the hand-back clauses (arrays "
               "live and at least as long as the structure they describe, stored cells initialised)."),
         design="DESIGN.md §4 C05"),
+    "C07": dict(
+        level="translation_validation", engine="E1-KSE + E3-trees",
+        technique="solver-checked equivalence of each program with its peephole-optimised form: (a) generated kernels on one symbolic heap, (b) all typed expression trees to depth 2 (+depth-3 spines) and statement trees via z3; bounded",
+        text=("(a) For every enumerated request and kernel kind the unoptimised module (pipeline with peephole stubbed) and "
+              "tensora.ir.peephole of it run on the same symbolic inputs; z3 decides per path equal return value, equal pos/crd/vals, no "
+              "obligation violated by the optimised program and every access of the optimised program also performed by the original; the "
+              "module the real pipeline returns must be exactly peephole(unoptimised). (b) Every well-typed expression tree over the "
+              "property's literal set and typed variables (exhaustive depth 1, depth 2 exhaustive in thorough / every 25th in quick, "
+              "depth-3 spines sampled) and statement trees (depth <=2 exhaustive, depth 3 sampled) is compared with its optimised form "
+              "for all environments in which the original is safe; counterexamples are replayed through the real LLVM JIT."),
+        design="DESIGN.md §4 C07",
+        note=TRUST + " Doubles are compared over the rationals. Known finding F11 (float-literal identity rules narrow double arithmetic to int32) is listed in known_findings.json."),
+    "C16": dict(
+        level="model_checking", engine="E1-KSE",
+        technique="symbolic execution with the sparse-only dimension as a free integer up to 2^31-1; monotonicity of every path condition in that dimension decided by z3; bounded in stored entries",
+        text=("For every enumerated request with an index meeting the hypothesis (computed independently from the assignment and formats) "
+              "that dimension is a free symbol in [0, 2^31-1]. z3 decides for every path that its path condition stays true when the "
+              "dimension is enlarged with the stored entries unchanged - so the same loop iterations and statements are executed - and a "
+              "loop bounded by the dimension cannot complete a path (unwinding violation). Witnesses are replayed on the concrete IR "
+              "machine with its loop/statement counters at D and at a larger D."),
+        design="DESIGN.md §4 C16"),
 }
 
 NOT_APPLICABLE = {
@@ -62,7 +83,7 @@ NOT_APPLICABLE = {
     "C14": "thread interleavings of CPython, LLVM MCJIT and the cffi build lock: no engine here explores Python thread schedules symbolically (DESIGN.md §5)",
     "C15": "hash seeds, process boundaries and request histories are not inputs of a function a solver can quantify over; the cache-key clause ranges over a small finite set where a symbolic check degenerates to enumeration (DESIGN.md §5)",
 }
-PENDING = {pid: "check under construction in this round (see DESIGN.md §10 build order); not claimed until it runs quiet on the unchanged tree" for pid in ["C06","C07","C09","C10","C11","C12","C16"]}
+PENDING = {pid: "check under construction in this round (see DESIGN.md §10 build order); not claimed until it runs quiet on the unchanged tree" for pid in ["C06","C09","C10","C11","C12"]}
 
 
 def main():
@@ -95,6 +116,9 @@ def main():
             {"name": "E1-KSE", "path": "vlib/kse.py, vlib/irexec.py, vlib/tensors.py, vlib/kassert.py, vlib/spec.py",
              "serves_properties": ["C01", "C02", "C03", "C04", "C05", "C07", "C16"],
              "kind_free_text": "path-based symbolic executor for tensora IR on z3 (replay forking, hybrid concrete/symbolic heap)"},
+            {"name": "E3-trees", "path": "vlib/trees.py, vlib/stmts.py, vlib/checks/c07.py",
+             "serves_properties": ["C07", "C06", "C12"],
+             "kind_free_text": "typed IR expression/statement tree enumeration with symbolic variables; meanings compared by z3"},
         ],
         "checks": checks,
         "not_applicable": na,
